@@ -80,7 +80,7 @@ func init() {
 			var js []sym.Job
 			for cfg := 0; cfg < 16; cfg++ {
 				for conns := 0; conns <= 2; conns++ {
-					for _, h := range []int{0, 3} {
+					for _, h := range []int{0, 3, 4} {
 						if h == 3 && conns == 0 {
 							continue
 						}
@@ -94,7 +94,7 @@ func init() {
 			return js
 		},
 		Bounds: map[string]string{
-			"quick":    "all 16 set/unset combinations of the four callbacks x 0..2 incoming connections (each sends one request, accept callback's verdict symbolic per connection) x handler {conforming, panicking} x shutdown flag set or not before Accept fails; Shutdown on 0..3 tracked connections with symbolic busy flags",
+			"quick":    "all 16 set/unset combinations of the four callbacks x 0..2 incoming connections (each sends one request, accept callback's verdict symbolic per connection) x handler {conforming, panicking, conforming but slower than the write timeout} x shutdown flag set or not before Accept fails; Shutdown on 0..3 tracked connections with symbolic busy flags",
 			"thorough": "same (the bound is the claim)",
 		},
 		Outside:   []string{"goroutine interleavings: each connection goroutine is run to completion at its spawn point (one schedule), so concurrent connects/disconnects/shutdown, data races, the isBeingHandled hand-over under concurrency, 'the port no longer accepts connections' and 'cancelling the context makes serve return in bounded time' are NOT decided by this check"},
